@@ -202,7 +202,7 @@ def gen_case(rnd, prop, tier):
             continue
         r = rnd.random()
         if prev is None or r < 0.3:
-            sub = sorted(rnd.sample(range(len(pool)), rnd.randint(0 if rnd.random() < 0.08 else 1, len(pool))))
+            sub = sorted(rnd.sample(range(len(pool)), rnd.randint(0 if rnd.random() < 0.15 else 1, len(pool))))
         elif r < 0.6:
             extra = [i for i in range(len(pool)) if i not in prev]
             sub = sorted(prev + ([rnd.choice(extra)] if extra else []))
@@ -225,7 +225,11 @@ def gen_case(rnd, prop, tier):
         elif r < 0.4:
             cb = ['interrupt', rnd.choice([1, 1, 2, 3, 5])]
         iters = rnd.choice([1, 1, 2, 3, 5, max_it])
-        ops.append(['EST', sub, total, solver, opts, cb, iters])
+        refill = None
+        dense = [i for i in sub if pool[i]['q'] in ('dense', 'prefix')]
+        if n_est > 0 and dense and rnd.random() < 0.25:
+            refill = [rnd.choice(dense), rnd.getrandbits(32)]      # the caller refills its own query buffer in place between calls
+        ops.append(['EST', sub, total, solver, opts, cb, iters, refill])
         n_est += 1
     total_true = rnd.choice([1.0, 10.0, 100.0, 1000.0])
     for op in ops:
@@ -603,7 +607,17 @@ def run_case(case, prop):
                 seq.append(('Q', len(op[2])))
                 steps += 1
         else:
-            _, sub, total, solver, opts, cb, iters = op
+            _, sub, total, solver, opts, cb, iters = op[:7]
+            refill = op[7] if len(op) > 7 else None
+            if refill is not None and isinstance(pool[refill[0]][0], np.ndarray):
+                rr = random.Random(refill[1])
+                Qb, yb = pool[refill[0]][0], pool[refill[0]][1]
+                Qb[...] = np.array([[rr.choice([0.0, 1.0, 1.0, -1.0, 0.5]) for _ in range(Qb.shape[1])] for _ in range(Qb.shape[0])])
+                if not Qb.any():
+                    Qb[0, 0] = 1.0
+                xt = refmodel.marginal_p(truth(case), attrs, case['pool'][refill[0]]['proj']).reshape(-1)
+                yb[...] = Qb @ xt + np.array([rr.gauss(0, case['pool'][refill[0]]['sigma']) for _ in range(Qb.shape[0])])
+                faults['caller-refilled-query-buffer-in-place'] = faults.get('caller-refilled-query-buffer-in-place', 0) + 1
             meas = [pool[i] for i in sub]
             snap = input_snapshot(meas, zs)
             eng.iters = iters
@@ -685,6 +699,8 @@ def run_case(case, prop):
                     check_zeros(mbi, model, case, tag, solver, viol, probes, faults)
                     if not viol:
                         check_synthetic(mbi, model, case, tag, solver, viol, probes, faults)
+                    if not viol:
+                        check_zeros(mbi, model, case, tag + ' re-checked after synthetic_data', solver + ':after-synthetic_data', viol, probes, faults)
                     returned.append((model, None, None, len(est_sets)))
                     digests.append(core.digest([core.arr_digest(a) for a in model_arrays(model)]))
         # (ii) snapshots of every earlier returned model, after every operation
@@ -749,12 +765,16 @@ def check_convergence(mbi, case, eng, last, probes):
             mu0 = eng.model.belief_propagation(eng.model.potentials)
         for cl in eng.model.cliques:
             a = np.asarray(mu0[cl].values, dtype=float)
-            if a.size > 1 and np.isfinite(a).all() and a.sum() > 0 and (a.sum() - a.max()) / a.sum() < 1e-9:
-                onehot = True
+            if a.size > 1 and np.isfinite(a).all() and a.sum() > 0:
+                rel = a / a.sum()
+                # numerically one-hot, or some cell (not an exact structural zero) holds less than 1e-50 of the mass:
+                # entropic mirror descent needs a parameter change of > 115 to bring such a cell back
+                if (a.sum() - a.max()) / a.sum() < 1e-9 or np.any((rel > 0) & (rel < 1e-50)):
+                    onehot = True
     except Exception:
         pass
     sat = ':saturated-start' if (onehot or spread >= 700) else ''
-    gaps = []
+    hist = []
     for mult in (1, 4, 16):
         warm_eng = copy.copy(eng)          # shares eng.model (the warm starting point) but not later state
         warm_eng.iters = K * mult
@@ -767,29 +787,31 @@ def check_convergence(mbi, case, eng, last, probes):
         uni = mbi.GraphicalModel(mc.domain, list(mc.cliques), mc.total)
         uni.potentials = mbi.CliqueVector.zeros(mc.domain, uni.cliques)
         Lw, Lc, Lu = loss_of(mw, meas), loss_of(mc, meas), loss_of(uni, meas)
-        gap = Lw - Lc                    # signed: "the same optimum" is symmetric
+        hist.append((mult, Lw, Lc, Lu))
         best = min(Lw, Lc)
         allowed = 1e-2 * max(Lu - best, 0.0) + 1e-9 * Lu + 1e-12
-        gaps.append((mult, Lw, Lc, Lu))
-        if gap < -allowed and max(theta_mag(mw), theta_mag(mc)) >= 1e9:
+        if max(theta_mag(mw), theta_mag(mc)) >= 1e9 and Lw - Lc < -allowed:
             probes['convergence-skipped(theta>=1e9, F8)'] = probes.get('convergence-skipped(theta>=1e9, F8)', 0) + 1
             return None
-        if abs(gap) <= allowed:
+        if abs(Lw - Lc) <= allowed:
             if mult > 1:
                 probes['convergence-needed-escalation'] = probes.get('convergence-needed-escalation', 0) + 1
             return None
-        if len(gaps) >= 2 and abs(gap) <= 0.5 * abs(gaps[-2][1] - gaps[-2][2]):
-            continue        # still shrinking: slow, not stuck
-        if len(gaps) >= 2:
-            break
-    if len(gaps) == 3 and abs(gaps[-1][1] - gaps[-1][2]) <= 0.5 * abs(gaps[-2][1] - gaps[-2][2]):
-        probes['convergence-slow-but-shrinking'] = probes.get('convergence-slow-but-shrinking', 0) + 1
+    # still apart after 16x the iterations: a violation only if the run that is behind is STUCK, i.e. 16x more iterations closed
+    # less than 5% of the distance it had to the other run's final loss (slow convergence is not a violation)
+    (_, Lw1, Lc1, _), (_, Lw16, Lc16, Lu) = hist[0], hist[-1]
+    if Lw16 > Lc16:
+        behind1, behind16, target, below = Lw1, Lw16, Lc16, False
+    else:
+        behind1, behind16, target, below = Lc1, Lc16, Lw16, True
+    closed = behind1 - behind16
+    if closed >= 0.05 * (behind1 - target):
+        probes['convergence-slow-but-progressing'] = probes.get('convergence-slow-but-progressing', 0) + 1
         return None
-    below = (gaps[-1][1] - gaps[-1][2]) < 0
     return Violation('c13-warm-converges', 'c13-warm-converges:' + solver + (':warm-below-cold' if below else '') + sat,
-                     'warm-started %s %s: (iters x%d: L_warm=%.6g L_cold=%.6g L_uniform=%.6g) history of gaps %s; parameter spread of the warm starting point %.4g' % (
-                         solver, 'ends BELOW what a cold start reaches (the two do not optimise over the same set)' if below else 'stays above the cold-start optimum',
-                         gaps[-1][0], gaps[-1][1], gaps[-1][2], gaps[-1][3], [(m, round(a - b, 6)) for m, a, b, _ in gaps], spread))
+                     'warm-started %s %s: losses (iteration multiplier, L_warm, L_cold) = %s, L_uniform=%.6g; the run that is behind closed %.3g of its distance %.3g with 16x the iterations; parameter spread of the warm starting point %.4g' % (
+                         solver, 'ends BELOW what a cold start reaches and the cold start makes no progress towards it (the two do not optimise over the same set)' if below else 'stays above the cold-start result and makes no progress towards it',
+                         [(m, float('%.6g' % a), float('%.6g' % b)) for m, a, b, _ in hist], Lu, closed, behind1 - target, spread))
 
 
 # ----------------------------------------------------------------------------------- shrinking
@@ -848,6 +870,10 @@ def shrink(case, prop):
     for k, op in enumerate(ops):
         if op[0] != 'EST':
             continue
+        if len(op) > 7 and op[7]:
+            c = copy.deepcopy(case)
+            c['ops'][k][7] = None
+            yield c
         if op[5]:
             c = copy.deepcopy(case)
             c['ops'][k][5] = None
